@@ -1081,7 +1081,7 @@ class Gen:
     def fill_refs(self, m, layers):
         r = self.r
         # ADMIN-DATA on DATA-OBJECT-PROPs only in some sets (one decision per set)
-        dop_admin = self.chance(12)
+        dop_admin = self.chance(40)
         for l in layers:
             # services
             for s in l["svcs"]:
